@@ -1,7 +1,8 @@
 use crate::engine::Check;
+pub mod c02;
 pub mod c09;
 pub mod c16;
 
 pub fn all() -> Vec<Box<dyn Check>> {
-    vec![Box::new(c09::C09), Box::new(c16::C16)]
+    vec![Box::new(c02::C02), Box::new(c09::C09), Box::new(c16::C16)]
 }
